@@ -34,7 +34,7 @@ func (Prop) Rule() string {
 }
 func (Prop) Assumptions() []string {
 	return []string{
-		"two read-only calls can only race on memory reachable from shared inputs or package-level variables, and a race needs a write: if no read-only operation changes the snapshot of (inputs + globals) at any checked yield point there is no racing pair",
+		"two read-only calls can only race on memory reachable from shared inputs or package-level variables, and a race needs a write: no read-only operation may change the snapshot of the shared inputs at any checked yield point (violation); writes to package-level variables are reported in the evidence but are not a violation by themselves (a synchronised cache or pool is legal) - their race-freedom is left to the interleaving comparison and the race-detector mode",
 		"the reflection walker cannot see closure-captured variables or runtime-internal pools; writes that store the value already present are invisible; the race-detector mode covers these blind spots without replayability",
 		"the cooperative scheduler explores interleavings at statement granularity under sequential consistency",
 		"results are compared after sorting reasons/errors (their order is not promised)",
@@ -114,7 +114,10 @@ func genFixture(r *core.Run) *fixture {
 	}
 	for i := 0; i < 2; i++ {
 		q := f.reqs[i]
-		br := batch.Request{Principal: q.Principal, Action: q.Action, Resource: batch.Variable("r"), Variables: batch.Variables{"r": {g.UID(), g.UID()}}}
+		// value lists with repeated members: an in-place "clean-up" of the caller's slice shows
+		u1, u2, u3 := g.UID(), g.UID(), g.UID()
+		rvals := [][]types.Value{{u1, u2}, {u1, u1, u2}, {u1, u2, u1, u3}, {u1, u1, u2, u2, u3}}[r.T.Intn(4)]
+		br := batch.Request{Principal: q.Principal, Action: q.Action, Resource: batch.Variable("r"), Variables: batch.Variables{"r": rvals}}
 		cm := types.RecordMap{}
 		for k, v := range q.Context.All() {
 			cm[k] = v
@@ -122,7 +125,8 @@ func genFixture(r *core.Run) *fixture {
 		if i == 1 {
 			cm["a"] = batch.Variable("c")
 			cm["b"] = types.NewSet(batch.Variable("c"), types.Long(2))
-			br.Variables["c"] = []types.Value{g.Value(1), g.UID()}
+			cv := g.Value(1)
+			br.Variables["c"] = []types.Value{cv, cv, g.UID()}
 		}
 		br.Context = types.NewRecord(cm)
 		f.breqs = append(f.breqs, br)
@@ -324,18 +328,30 @@ func takeSnap(roots []any) snap {
 	return snap{roots: verifsim.SnapshotMany(roots), globals: verifsim.SnapshotGlobals()}
 }
 
+// diff names the first shared input that differs.  Package-level variables are NOT part of
+// the verdict: the property forbids modifying the policies, entities, requests and values
+// passed in, and data races; a correctly synchronised internal cache or pool (sync.Pool,
+// atomics) writes package-level state without breaking it.  Whether such writes are
+// race-free is decided by the interleaving results and by the race-detector mode; here they
+// are only reported (globalsWritten) so that the evidence shows when the "no shared writes"
+// premise does not hold.
 func (a snap) diff(b snap, names []string) string {
 	for i := range a.roots {
 		if a.roots[i] != b.roots[i] {
 			return "shared input: " + names[i]
 		}
 	}
+	return ""
+}
+
+func (a snap) globalsWritten(b snap) []string {
+	var out []string
 	for i := range a.globals {
 		if a.globals[i] != b.globals[i] {
-			return "package-level variable " + strings.TrimPrefix(verifsim.Globals[i].Name, "github.com/cedar-policy/cedar-go/")
+			out = append(out, strings.TrimPrefix(verifsim.Globals[i].Name, "github.com/cedar-policy/cedar-go/"))
 		}
 	}
-	return ""
+	return out
 }
 
 func viol(kind, sig, format string, a ...any) *core.Violation {
@@ -409,6 +425,10 @@ func (p Prop) immutability(r *core.Run, f *fixture, ops []operation, roots []any
 		after := takeSnap(roots)
 		if d := before.diff(after, names); d != "" {
 			return viol("input-mutated", "input-mutated:"+op.name+":"+d, "%s modified %s (before/after comparison)", op.name, d)
+		}
+		for _, g := range before.globalsWritten(after) {
+			r.Count("info.package_level_variable_written_by_read_only_operation:" + g)
+			r.Logf("note: %s wrote package-level variable %s (not a violation by itself; see race-detector mode)", op.name, g)
 		}
 		r.Count("mode1.operations")
 	}
